@@ -31,6 +31,7 @@
 (*   equal? both ways                       = StructEq                     *)
 (*   hash-map / hash-set lookups of y in a collection keyed by x, and      *)
 (*   duplicate-key collapsing               hit / 1 entry  iff StructEq    *)
+(*   (= (hash-code x) (hash-code y))        #true          if  StructEq    *)
 (*   eqv? / eq?  only where R7RS determines them (same variable; leaves    *)
 (*   whose identity is their value: exact numbers, symbols, booleans, (),  *)
 (*   characters; different-content leaves).                                *)
@@ -38,11 +39,15 @@
 (* semantic preconditions of the defects recorded in known_findings.d      *)
 (* (sharing present, set-size coincidence, ...).  A mismatch whose pair    *)
 (* lacks the feature of every known finding is reported as a VIOLATION.    *)
+(* The check additionally tests the OBSERVED equal? relation of every case *)
+(* for reflexivity, symmetry and transitivity without using the oracle.    *)
 (*                                                                         *)
 (* FAMILIES (table Fams, selected by the constant FAMSEL):                 *)
 (*  graph families: the build phase adds one node per step, every node     *)
 (*           choice over kinds x slots(leafs, earlier nodes); BFS = all    *)
-(*           heaps of exactly n nodes, -simulate = random larger heaps     *)
+(*           heaps of exactly n nodes; family "sim" follows only a SEED-   *)
+(*           selected sparse sub-tree and so samples larger heaps over all *)
+(*           kinds reproducibly                                            *)
 (*  "leaf"   all ordered pairs of leaves (numeric tower subtleties, values *)
 (*           built two ways) x a wrapper kind (or none)                    *)
 (*                                                                         *)
@@ -78,7 +83,7 @@ vars == <<fam, g, phase>>
 (* one-leaf mutants of the unshared copies as further values.                                 *)
 LeafOrder == <<"i1", "i1b", "i2", "i0", "f1", "f0", "fn0", "nan", "big", "big2", "rat", "rat2", "brat", "brat2",
                "cx", "cx2", "sa", "sa2", "sb", "se", "ya", "ya2", "yb", "ca", "ca2", "cb", "t", "f", "nil", "nil2",
-               "bv", "bv2", "bw">>
+               "bv", "bv2", "bw", "fcar", "fcar2", "fcdr", "vd">>
 AllLeafIds == {LeafOrder[i] : i \in 1..Len(LeafOrder)}
 Fams == [
   list   |-> [n |-> 3, leafs |-> {"i1", "nil"}, kinds |-> {"cons", "list1"}, mut |-> TRUE],
@@ -143,7 +148,12 @@ LeafTab == {
   [id |-> "nil2", src |-> "(list)",                                   den |-> "nil",  cls |-> "nil"],
   [id |-> "bv",   src |-> "(bytes 1 2)",                              den |-> "b:12", cls |-> "bytes"],
   [id |-> "bv2",  src |-> "(bytes-append (bytes 1) (bytes 2))",       den |-> "b:12", cls |-> "bytes"],
-  [id |-> "bw",   src |-> "(bytes 1 3)",                              den |-> "b:13", cls |-> "bytes"] }
+  [id |-> "bw",   src |-> "(bytes 1 3)",                              den |-> "b:13", cls |-> "bytes"],
+  \* kinds without structure: primitive procedures (identity = the primitive) and void
+  [id |-> "fcar", src |-> "car",                                      den |-> "p:car", cls |-> "proc"],
+  [id |-> "fcar2",src |-> "(opaque car)",                             den |-> "p:car", cls |-> "proc"],
+  [id |-> "fcdr", src |-> "cdr",                                      den |-> "p:cdr", cls |-> "proc"],
+  [id |-> "vd",   src |-> "void",                                     den |-> "void",  cls |-> "void"] }
 
 LeafIds == {r.id : r \in LeafTab}
 LF == [i \in LeafIds |-> CHOOSE r \in LeafTab : r.id = i]
@@ -152,7 +162,7 @@ LeafDen(i) == LF[i].den
 LeafCls(i) == LF[i].cls
 
 \* classes whose eqv?-identity is their value (R7RS 6.1)
-ValueCls  == {"exact", "bigint", "ratio", "bigratio", "complex", "flo", "sym", "chr", "bool", "nil"}
+ValueCls  == {"exact", "bigint", "ratio", "bigratio", "complex", "flo", "sym", "chr", "bool", "nil", "proc", "void"}
 NumberCls == {"exact", "bigint", "ratio", "bigratio", "complex", "flo", "nan"}
 \* classes for which Steel's worklist comparison has no arm (finding C11-nested-*)
 ExoticCls == {"ratio", "bigratio", "complex", "bytes"}
@@ -201,13 +211,20 @@ KindOrder == <<"cons", "list1", "list2", "ivec1", "ivec2", "mvec1", "mvec2", "bo
 IdxIn(seq, x) == CHOOSE i \in 1..Len(seq) : seq[i] = x
 SlotCode(sl) == IF sl.r = 0 THEN IdxIn(LeafOrder, sl.l) ELSE 40 + sl.r
 Mx(a, b) == (a * 251 + b) % 9973
-NodeCode(nd) == LET a == Mx(IdxIn(KindOrder, nd.k), SlotCode(nd.c[1]))
-                    b == IF Len(nd.c) >= 2 THEN Mx(a, SlotCode(nd.c[2])) ELSE Mx(a, 7)
-                IN IF Len(nd.c) >= 3 THEN Mx(b, SlotCode(nd.c[3])) ELSE Mx(b, 11)
+NodeCode(nd) == Mx(Mx(Mx(IdxIn(KindOrder, nd.k), SlotCode(nd.c[1])),
+                      IF Len(nd.c) >= 2 THEN SlotCode(nd.c[2]) ELSE 7),
+                   IF Len(nd.c) >= 3 THEN SlotCode(nd.c[3]) ELSE 11)
 RECURSIVE HeapCode(_, _)
 HeapCode(h, i) == IF i = 0 THEN SEED % 9973 ELSE Mx(HeapCode(h, i - 1), NodeCode(h[i]))
-Kept(h, choices) == LET hc == HeapCode(h, Len(h))  m == Cardinality(choices) IN
-                    {nd \in choices : (Mx(Mx(hc, NodeCode(nd)), 4001) % m) < BRANCH}
+Kept3(choices, hc, m) == {nd \in choices : (Mx(Mx(hc, NodeCode(nd)), 4001) % m) < BRANCH}
+Kept(h, choices) == Kept3(choices, HeapCode(h, Len(h)), Cardinality(choices))
+
+-----------------------------------------------------------------------------
+(* TLC evaluation note.  TLC re-evaluates a LET definition and the body of a  *)
+(* function constructor at every use; only operator ARGUMENTS are evaluated   *)
+(* once.  Intermediate results are therefore passed as arguments of helper    *)
+(* operators (named ...2, ...3), and sequences are made concrete with Force.  *)
+Force(f) == f \o << >>
 
 -----------------------------------------------------------------------------
 (* Unfolding: the term (tree) of a node.  Sharing disappears here. *)
@@ -216,99 +233,105 @@ LeafTerm(l) == [k |-> "leaf", id |-> l, c |-> << >>]
 RECURSIVE Term(_, _)
 SlotTerm(h, s) == IF s.r = 0 THEN LeafTerm(s.l) ELSE Term(h, s.r)
 Term(h, i) == IF h[i].k = "lf" THEN LeafTerm(h[i].c[1].l)
-              ELSE [k |-> h[i].k, id |-> "", c |-> [p \in 1..Len(h[i].c) |-> SlotTerm(h, h[i].c[p])]]
+              ELSE [k |-> h[i].k, id |-> "", c |-> Force([p \in 1..Len(h[i].c) |-> SlotTerm(h, h[i].c[p])])]
 
 RECURSIVE LeafCount(_)
-SumLeaves(ts) == IF Len(ts) = 0 THEN 0
-                 ELSE IF Len(ts) = 1 THEN LeafCount(ts[1])
-                 ELSE IF Len(ts) = 2 THEN LeafCount(ts[1]) + LeafCount(ts[2])
-                 ELSE LeafCount(ts[1]) + LeafCount(ts[2]) + LeafCount(ts[3])
-LeafCount(t) == IF t.k = "leaf" THEN 1 ELSE SumLeaves(t.c)
+LeafCount(t) == IF t.k = "leaf" THEN 1
+                ELSE LeafCount(t.c[1]) + (IF Len(t.c) >= 2 THEN LeafCount(t.c[2]) ELSE 0)
+                                       + (IF Len(t.c) >= 3 THEN LeafCount(t.c[3]) ELSE 0)
 
 \* replace the p-th leaf (pre-order, 1-based) of t by another leaf
 RECURSIVE Mutate(_, _)
-Mutate(t, p) ==
-  IF t.k = "leaf" THEN LeafTerm(MutLeaf(t.id))
-  ELSE LET n1 == LeafCount(t.c[1])
-           n2 == IF Len(t.c) >= 2 THEN LeafCount(t.c[2]) ELSE 0
-       IN [t EXCEPT !.c = [q \in 1..Len(t.c) |->
-              IF q = 1 /\ p <= n1 THEN Mutate(t.c[1], p)
-              ELSE IF q = 2 /\ p > n1 /\ p <= n1 + n2 THEN Mutate(t.c[2], p - n1)
-              ELSE IF q = 3 /\ p > n1 + n2 THEN Mutate(t.c[3], p - n1 - n2)
-              ELSE t.c[q]]]
+Mutate3(t, p, n1, n2) ==
+  [t EXCEPT !.c = Force([q \in 1..Len(t.c) |->
+      IF q = 1 /\ p <= n1 THEN Mutate(t.c[1], p)
+      ELSE IF q = 2 /\ p > n1 /\ p <= n1 + n2 THEN Mutate(t.c[2], p - n1)
+      ELSE IF q = 3 /\ p > n1 + n2 THEN Mutate(t.c[3], p - n1 - n2)
+      ELSE t.c[q]])]
+Mutate(t, p) == IF t.k = "leaf" THEN LeafTerm(MutLeaf(t.id))
+                ELSE Mutate3(t, p, LeafCount(t.c[1]), IF Len(t.c) >= 2 THEN LeafCount(t.c[2]) ELSE 0)
 
 -----------------------------------------------------------------------------
-(* Denotation.  mode "std" is the meaning; the other two modes are the      *)
-(* abstractions under which two known Steel defects become equalities:       *)
-(*   "setsize"  a hash set is only its cardinality                           *)
-(*   "zero"     0.0 and -0.0 are identified                                  *)
-(*   "mut"      (refinement, not abstraction) mutable and immutable vectors  *)
-(*              are different kinds of value - what Steel's Hash sees        *)
+(* Denotation.  DenNode gives the value of a node from the values of its      *)
+(* children; mode "std" is the meaning, the other modes are the readings      *)
+(* under which known Steel defects become explicable:                         *)
+(*   "setsize"  a hash set is only its cardinality                            *)
+(*   "zero"     0.0 and -0.0 are identified                                   *)
+(*   "mut"      (a refinement) mutable and immutable vectors are different    *)
+(*              kinds of value - what Steel's Hash sees                       *)
 NilD == <<"leaf", "nil">>
 LeafD(i, mode) == IF mode = "zero" /\ LeafDen(i) = "fn0" THEN <<"leaf", "f0">> ELSE <<"leaf", LeafDen(i)>>
-
 VecTag(k, mode) == IF mode = "mut" THEN (IF k \in {"mvec1", "mvec2"} THEN "mvec" ELSE "ivec") ELSE "vec"
 
-RECURSIVE DenM(_, _)
-DenM(t, m) ==
-  CASE t.k = "leaf"  -> LeafD(t.id, m)
-    [] t.k = "cons"  -> <<"cons", DenM(t.c[1], m), DenM(t.c[2], m)>>
-    [] t.k = "list1" -> <<"cons", DenM(t.c[1], m), NilD>>
-    [] t.k = "list2" -> <<"cons", DenM(t.c[1], m), <<"cons", DenM(t.c[2], m), NilD>>>>
-    [] t.k \in {"ivec1", "mvec1"} -> <<VecTag(t.k, m), <<DenM(t.c[1], m)>>>>
-    [] t.k \in {"ivec2", "mvec2"} -> <<VecTag(t.k, m), <<DenM(t.c[1], m), DenM(t.c[2], m)>>>>
-    [] t.k = "box"   -> <<"box", DenM(t.c[1], m)>>
-    [] t.k = "hash1" -> <<"map", {<<DenM(t.c[1], m), DenM(t.c[2], m)>>}>>
-    [] t.k = "hins"  -> LET old == DenM(t.c[1], m)
-                            kd  == DenM(t.c[2], m)
-                        IN <<"map", {e \in old[2] : e[1] # kd} \cup {<<kd, DenM(t.c[3], m)>>}>>
-    [] t.k = "hset1" -> IF m = "setsize" THEN <<"set#", 1>> ELSE <<"set", {DenM(t.c[1], m)}>>
-    [] t.k = "hset2" -> IF m = "setsize" THEN <<"set#", Cardinality({DenM(t.c[1], "std"), DenM(t.c[2], "std")})>>
-                        ELSE <<"set", {DenM(t.c[1], m), DenM(t.c[2], m)}>>
-    [] t.k = "sP"    -> <<"struct", "P", <<DenM(t.c[1], m), DenM(t.c[2], m)>>>>
-    [] t.k = "sQ"    -> <<"struct", "Q", <<DenM(t.c[1], m), DenM(t.c[2], m)>>>>
+\* k: node kind, d: children's values in mode m, s: children's values in mode "std"
+DenNode(k, d, s, m) ==
+  CASE k = "cons"  -> <<"cons", d[1], d[2]>>
+    [] k = "list1" -> <<"cons", d[1], NilD>>
+    [] k = "list2" -> <<"cons", d[1], <<"cons", d[2], NilD>>>>
+    [] k \in {"ivec1", "mvec1"} -> <<VecTag(k, m), <<d[1]>>>>
+    [] k \in {"ivec2", "mvec2"} -> <<VecTag(k, m), <<d[1], d[2]>>>>
+    [] k = "box"   -> <<"box", d[1]>>
+    [] k = "hash1" -> <<"map", {<<d[1], d[2]>>}>>
+    \* insertion into the finite function d[1]: an entry with an equal key is replaced
+    [] k = "hins"  -> <<"map", {e \in d[1][2] : e[1] # d[2]} \cup {<<d[2], d[3]>>}>>
+    [] k = "hset1" -> IF m = "setsize" THEN <<"set#", 1>> ELSE <<"set", {d[1]}>>
+    [] k = "hset2" -> IF m = "setsize" THEN <<"set#", Cardinality({s[1], s[2]})>> ELSE <<"set", {d[1], d[2]}>>
+    [] k = "sP"    -> <<"struct", "P", <<d[1], d[2]>>>>
+    [] k = "sQ"    -> <<"struct", "Q", <<d[1], d[2]>>>>
 
+RECURSIVE DenM(_, _)
+DenM(t, m) == IF t.k = "leaf" THEN LeafD(t.id, m)
+              ELSE DenNode(t.k, Force([p \in 1..Len(t.c) |-> DenM(t.c[p], m)]),
+                                Force([p \in 1..Len(t.c) |-> DenM(t.c[p], "std")]), m)
 Den(t) == DenM(t, "std")
 StructEq(x, y) == Den(x) = Den(y)
 
 -----------------------------------------------------------------------------
-(* Features of terms (preconditions of known findings) *)
-RECURSIVE HasLeafCls(_, _)
-HasLeafCls(t, cs) == IF t.k = "leaf" THEN LeafCls(t.id) \in cs
-                     ELSE \E p \in 1..Len(t.c) : HasLeafCls(t.c[p], cs)
-NestedLeafCls(t, cs) == t.k # "leaf" /\ HasLeafCls(t, cs)
+(* Everything the case printer needs to know about a term, computed in one    *)
+(* bottom-up pass: the four readings and the features that are preconditions  *)
+(* of known findings.                                                         *)
+(*   d, ds, dz, dm   value in mode std / setsize / zero / mut                 *)
+(*   nan             a NaN leaf occurs                                        *)
+(*   exo             a leaf of a class without comparison arm occurs          *)
+(*   big             a hash map / set with >= 2 entries occurs                *)
+(*   bigkey          ... inside a key / member of a hash map / set            *)
+(*   msplit          a hash map / set has two keys that are equal as values   *)
+(*                   but differ in vector mutability (Steel keeps both)       *)
+KeyPos(k) == CASE k = "hash1" -> {1} [] k = "hins" -> {2} [] k \in {"hset1", "hset2"} -> {1, 2} [] OTHER -> {}
+IsColl(k) == k \in {"hash1", "hins", "hset1", "hset2"}
+Col(ci, f) == Force([p \in 1..Len(ci) |-> ci[p][f]])
 
-Entries(t) == IF t.k \in {"hash1", "hins"} THEN Cardinality(Den(t)[2])
-              ELSE IF t.k \in {"hset1", "hset2"} THEN Cardinality(Den(t)[2]) ELSE 0
-\* contains a hash map / hash set with at least two entries
-RECURSIVE Big(_)
-Big(t) == t.k # "leaf" /\ (Entries(t) >= 2 \/ \E p \in 1..Len(t.c) : Big(t.c[p]))
-\* contains a hash map / hash set one of whose keys / members is Big
-RECURSIVE BigKey(_)
-KeyPos(t) == CASE t.k = "hash1" -> {1} [] t.k = "hins" -> {2} [] t.k \in {"hset1", "hset2"} -> 1..Len(t.c) [] OTHER -> {}
-BigKey(t) == t.k # "leaf" /\ ((\E p \in KeyPos(t) : Big(t.c[p])) \/ \E p \in 1..Len(t.c) : BigKey(t.c[p]))
-
-\* contains a hash map / hash set two of whose keys / members are equal as values but differ
-\* in vector mutability (Steel keeps both)
-RECURSIVE MutSplit(_)
-MutSplit(t) == t.k # "leaf" /\
-   (   (t.k \in {"hash1", "hins", "hset1", "hset2"}
-           /\ Cardinality(DenM(t, "mut")[2]) # Cardinality(DenM(t, "std")[2]))
-    \/ \E p \in 1..Len(t.c) : MutSplit(t.c[p]))
+LeafInfo(i) == [leaf |-> TRUE, d |-> LeafD(i, "std"), ds |-> LeafD(i, "std"), dz |-> LeafD(i, "zero"),
+                dm |-> LeafD(i, "std"), nan |-> LeafCls(i) = "nan", exo |-> LeafCls(i) \in ExoticCls,
+                big |-> FALSE, bigkey |-> FALSE, msplit |-> FALSE]
+NodeInfo3(k, ci, d, dm) ==
+  [leaf |-> FALSE, d |-> d, dm |-> dm,
+   ds |-> DenNode(k, Col(ci, "ds"), Col(ci, "d"), "setsize"),
+   dz |-> DenNode(k, Col(ci, "dz"), Col(ci, "d"), "zero"),
+   nan |-> \E p \in 1..Len(ci) : ci[p].nan,
+   exo |-> \E p \in 1..Len(ci) : ci[p].exo,
+   big |-> (IsColl(k) /\ Cardinality(d[2]) >= 2) \/ \E p \in 1..Len(ci) : ci[p].big,
+   bigkey |-> (\E p \in KeyPos(k) \cap 1..Len(ci) : ci[p].big) \/ \E p \in 1..Len(ci) : ci[p].bigkey,
+   msplit |-> (IsColl(k) /\ Cardinality(d[2]) # Cardinality(dm[2])) \/ \E p \in 1..Len(ci) : ci[p].msplit]
+NodeInfo2(k, ci) == NodeInfo3(k, ci, DenNode(k, Col(ci, "d"), Col(ci, "d"), "std"),
+                                     DenNode(k, Col(ci, "dm"), Col(ci, "d"), "mut"))
+RECURSIVE TInfo(_)
+TInfo(t) == IF t.k = "leaf" THEN LeafInfo(t.id)
+            ELSE NodeInfo2(t.k, Force([p \in 1..Len(t.c) |-> TInfo(t.c[p])]))
 
 \* node identities met when node i is traversed completely (with repetition)
 RECURSIVE OccSeq(_, _)
 SlotOcc(h, s) == IF s.r = 0 THEN << >> ELSE OccSeq(h, s.r)
-OccSeq(h, i) == IF h[i].k = "lf" THEN << >>
-                ELSE LET c == h[i].c IN
-                     <<i>> \o SlotOcc(h, c[1]) \o (IF Len(c) >= 2 THEN SlotOcc(h, c[2]) ELSE << >>)
+OccSeq2(h, i, c) == <<i>> \o SlotOcc(h, c[1]) \o (IF Len(c) >= 2 THEN SlotOcc(h, c[2]) ELSE << >>)
                           \o (IF Len(c) >= 3 THEN SlotOcc(h, c[3]) ELSE << >>)
+OccSeq(h, i) == IF h[i].k = "lf" THEN << >> ELSE OccSeq2(h, i, h[i].c)
 DupIds(s) == {s[a] : a \in {a \in 1..Len(s) : \E b \in 1..Len(s) : a # b /\ s[a] = s[b]}}
 \* "V": an immutable vector is met twice (Steel then answers "different");
 \* "S": a node of another kind is met twice (Steel then skips the second comparison)
-ShareFeat(h, s) == LET d == DupIds(s) IN
+ShareFeat2(h, d) ==
      (IF \E i \in d : h[i].k \notin {"ivec1", "ivec2"} THEN "S" ELSE "")
   \o (IF \E i \in d : h[i].k \in {"ivec1", "ivec2"} THEN "V" ELSE "")
+ShareFeat(h, s) == ShareFeat2(h, DupIds(s))
 
 -----------------------------------------------------------------------------
 (* Rendering *)
@@ -343,102 +366,105 @@ Probes == <<
   [name |-> "dupkey",   grp |-> "hash", tpl |-> "(hash-length (hash $x 1 $y 2))",              eq |-> "1",      ne |-> "2"],
   [name |-> "dupkey-v", grp |-> "hash", tpl |-> "(with-handler (lambda (e) 'miss) (hash-ref (hash $x 1 $y 2) $x))", eq |-> "2", ne |-> "1"],
   [name |-> "dupset",   grp |-> "hash", tpl |-> "(hashset-length (hashset-insert (hashset $x) $y))", eq |-> "1", ne |-> "2"],
+  \* hashing alone (eq: the codes must agree; ne: collisions are allowed, nothing is asserted)
+  [name |-> "hashcode", grp |-> "hash", tpl |-> "(= (hash-code $x) (hash-code $y))",           eq |-> "#true",  ne |-> "*"],
   [name |-> "eqv",      grp |-> "eqv",  tpl |-> "(eqv? $x $y)",                                eq |-> "#true",  ne |-> "#false"],
   [name |-> "eq",       grp |-> "eqp",  tpl |-> "(eq? $x $y)",                                 eq |-> "#true",  ne |-> "#false"] >>
 BaseMap == "(hash 'k0 0 'k1 0 'k2 0 'k3 0 'k4 0 'k5 0 'k6 0 'k7 0 'k8 0 'k9 0 'k10 0 'k11 0)"
 
 -----------------------------------------------------------------------------
 (* eqv? / eq? where R7RS determines them.  "t" / "f" / "-" (not determined)  *)
-\* both handles are heap nodes i, j of h
-EqvExp(h, i, j) ==
-  LET ti == Term(h, i)  tj == Term(h, j) IN
-  IF i = j THEN (IF HasLeafCls(ti, {"nan"}) /\ ti.k = "leaf" THEN "-" ELSE "t")   \* same object
+\* ti, tj: the terms of heap nodes i, j (two variables of the same scope)
+EqvExp(i, j, ti, tj) ==
+  IF i = j THEN (IF ti.k = "leaf" /\ LeafCls(ti.id) = "nan" THEN "-" ELSE "t")   \* same object
   ELSE IF ti.k = "leaf" /\ tj.k = "leaf"
-       THEN LET ci == LeafCls(ti.id)  cj == LeafCls(tj.id) IN
-            IF ci = "nan" \/ cj = "nan" THEN (IF ci = cj THEN "-" ELSE "f")
-            ELSE IF ci \in ValueCls /\ cj \in ValueCls
+       THEN IF LeafCls(ti.id) = "nan" \/ LeafCls(tj.id) = "nan"
+            THEN (IF LeafCls(ti.id) = LeafCls(tj.id) THEN "-" ELSE "f")
+            ELSE IF LeafCls(ti.id) \in ValueCls /\ LeafCls(tj.id) \in ValueCls
                  THEN (IF LeafDen(ti.id) = LeafDen(tj.id) THEN "t" ELSE "f")
                  ELSE (IF LeafDen(ti.id) # LeafDen(tj.id) THEN "f" ELSE "-")
        ELSE "-"      \* freshly allocated aggregates: never asserted
-EqExp(h, i, j) ==
-  LET ti == Term(h, i)  tj == Term(h, j)  v == EqvExp(h, i, j) IN
+EqExp2(i, j, ti, v) ==
   IF v = "f" THEN "f"
   ELSE IF v = "-" THEN "-"
   ELSE IF ti.k # "leaf" THEN "t"                                   \* same aggregate object
   ELSE IF LeafCls(ti.id) \in NumberCls \cup {"chr"} THEN "-"       \* R7RS: eq? on numbers/chars unspecified
   ELSE IF i = j THEN "t"
-  ELSE IF LeafCls(ti.id) \in {"sym", "bool", "nil"} THEN "t" ELSE "-"
+  ELSE IF LeafCls(ti.id) \in {"sym", "bool", "nil", "proc", "void"} THEN "t" ELSE "-"
+EqExp(i, j, ti, tj) == EqExp2(i, j, ti, EqvExp(i, j, ti, tj))
 
 -----------------------------------------------------------------------------
 (* Handles and pairs of one case *)
-\* feature letters: S / V a node is met twice during the traversal (see ShareFeat), H equal when sets are sizes, Z equal when
-\* -0.0 = 0.0, A a NaN leaf, X an exotic leaf nested in an aggregate, B a map/set with >= 2
-\* entries inside, K such a map/set inside a key, M equal but for vector mutability,
-\* N a map/set inside has two keys that differ only in vector mutability,
+\* feature letters: S / V a node is met twice during the traversal (see ShareFeat), H equal when
+\* sets are sizes, Z equal when -0.0 = 0.0, M equal but for vector mutability, N a map/set inside
+\* has two keys that differ only in vector mutability, A a NaN leaf, X a leaf without comparison
+\* arm nested in an aggregate, B a map/set with >= 2 entries inside, K such a map/set inside a key,
 \* I the object is of a kind without identity arm (eqv/eq on the same variable),
 \* Q eqv? on heap-allocated exact numbers
-FeatT(x, y) ==
-     (IF Den(x) # Den(y) /\ DenM(x, "setsize") = DenM(y, "setsize") THEN "H" ELSE "")
-  \o (IF Den(x) # Den(y) /\ DenM(x, "zero") = DenM(y, "zero") THEN "Z" ELSE "")
-  \o (IF Den(x) = Den(y) /\ DenM(x, "mut") # DenM(y, "mut") THEN "M" ELSE "")
-  \o (IF MutSplit(x) \/ MutSplit(y) THEN "N" ELSE "")
-  \o (IF HasLeafCls(x, {"nan"}) \/ HasLeafCls(y, {"nan"}) THEN "A" ELSE "")
-  \o (IF NestedLeafCls(x, ExoticCls) \/ NestedLeafCls(y, ExoticCls) THEN "X" ELSE "")
-  \o (IF Big(x) \/ Big(y) THEN "B" ELSE "")
-  \o (IF BigKey(x) \/ BigKey(y) THEN "K" ELSE "")
+FeatT(x, y) ==          \* x, y: TInfo records
+     (IF x.d # y.d /\ x.ds = y.ds THEN "H" ELSE "")
+  \o (IF x.d # y.d /\ x.dz = y.dz THEN "Z" ELSE "")
+  \o (IF x.d = y.d /\ x.dm # y.dm THEN "M" ELSE "")
+  \o (IF x.msplit \/ y.msplit THEN "N" ELSE "")
+  \o (IF x.nan \/ y.nan THEN "A" ELSE "")
+  \o (IF (~x.leaf /\ x.exo) \/ (~y.leaf /\ y.exo) THEN "X" ELSE "")
+  \o (IF x.big \/ y.big THEN "B" ELSE "")
+  \o (IF x.bigkey \/ y.bigkey THEN "K" ELSE "")
 HeapNumCls == {"bigint", "ratio", "bigratio", "complex"}
 \* kinds of object for which Steel's eq?/eqv? has no identity arm (SteelVal::ptr_eq)
 NoIdentCls == {"ratio", "bigratio", "complex"}
-FeatId(x, y) ==
+FeatId(x, y) ==         \* x, y: terms
      (IF x.k \in {"box", "sP", "sQ"} \/ (x.k = "leaf" /\ LeafCls(x.id) \in NoIdentCls) THEN "I" ELSE "")
   \o (IF x.k = "leaf" /\ y.k = "leaf" /\ LeafCls(x.id) \in HeapNumCls /\ LeafCls(y.id) \in HeapNumCls THEN "Q" ELSE "")
 
 B2S(b) == IF b THEN 1 ELSE 0
 
 \* a pair is printed compactly as "x,y,same,hash,eqv,eq,features": x, y = handle indices
-\* (1-based into `handles`), same = StructEq, hash = 1 when the hash battery applies
+\* (1-based into `handles`), same = StructEq, hash = battery level: 2 whole hash battery,
+\* 1 only "tryget", 0 none
 PairStr(x, y, same, hashed, eqv, eqp, ft) ==
   ToString(x) \o "," \o ToString(y) \o "," \o ToString(same) \o "," \o ToString(hashed) \o ","
   \o eqv \o "," \o eqp \o "," \o ft
-NodePair(h, i, j, hashed) ==
-  LET x == Term(h, i)  y == Term(h, j) IN
-  PairStr(i, j, B2S(StructEq(x, y)), hashed, EqvExp(h, i, j), EqExp(h, i, j),
-          (IF i # j THEN ShareFeat(h, OccSeq(h, i) \o OccSeq(h, j)) ELSE "") \o FeatT(x, y) \o FeatId(x, y))
-\* x = node i of the heap, y = a separately built tree ty (handle index yi)
-TreePair(h, i, ty, yi, hashed) ==
-  LET x == Term(h, i) IN
-  PairStr(i, yi, B2S(StructEq(x, ty)), hashed, "-", "-",
-          ShareFeat(h, OccSeq(h, i)) \o FeatT(x, ty))
+
+\* both handles are heap nodes i, j
+NodePair(h, i, j, hashed, terms, infos, occs) ==
+  PairStr(i, j, B2S(infos[i].d = infos[j].d), hashed,
+          EqvExp(i, j, terms[i], terms[j]), EqExp(i, j, terms[i], terms[j]),
+          (IF i # j THEN ShareFeat(h, occs[i] \o occs[j]) ELSE "")
+            \o FeatT(infos[i], infos[j]) \o FeatId(terms[i], terms[j]))
+\* x = node i of the heap, y = a separately built tree with info iy (handle index yi)
+TreePair(h, i, iy, yi, hashed, infos, occs) ==
+  PairStr(i, yi, B2S(infos[i].d = iy.d), hashed, "-", "-", ShareFeat(h, occs[i]) \o FeatT(infos[i], iy))
 
 RECURSIVE Flatten(_)
 Flatten(ss) == IF Len(ss) = 0 THEN << >> ELSE Head(ss) \o Flatten(Tail(ss))
 
-\* mutants of node i: <<term, ...>>
-MutantsOf(h, i) == LET t == Term(h, i) IN
-                   IF MUTANTS /\ t.k # "leaf" THEN [p \in 1..LeafCount(t) |-> Mutate(t, p)] ELSE << >>
-AllMutants(h, roots) ==
-  LET rs == SetToSortSeq(roots, <) IN
-  Flatten([a \in 1..Len(rs) |-> [p \in 1..Len(MutantsOf(h, rs[a])) |-> [of |-> rs[a], t |-> MutantsOf(h, rs[a])[p]]]])
+\* mutants of a term: at most five leaf positions (first three, last two)
+MutPos(n) == {p \in 1..n : p <= 3 \/ p >= n - 1}
+MutantsOf2(i, t, ps) == Force([q \in 1..Len(ps) |-> [of |-> i, t |-> Mutate(t, ps[q])]])
+MutantsOf(i, t) == IF MUTANTS /\ t.k # "leaf" THEN MutantsOf2(i, t, SetToSortSeq(MutPos(LeafCount(t)), <)) ELSE << >>
+AllMutants(rs, terms) == Flatten(Force([a \in 1..Len(rs) |-> MutantsOf(rs[a], terms[rs[a]])]))
 
-\* roots = the heap nodes that are values under test
-\* battery levels (4th field of a pair): 2 = whole hash battery, 1 = only "tryget", 0 = none
-CaseOf(h, roots) ==
-  LET n    == Len(h)
-      rs   == SetToSortSeq(roots, <)
-      nr   == Len(rs)
-      muts == AllMutants(h, roots)
-      nm   == Len(muts)
-      \* handles: 1..n nodes, n+1..2n unshared copies, 2n+1.. mutants of the copies
-      handles == [i \in 1..n |-> "n" \o ToString(i)]
-                 \o [i \in 1..n |-> RTerm(Term(h, i))]
-                 \o [q \in 1..nm |-> RTerm(muts[q].t)]
-      nn == Flatten([a \in 1..nr |-> [b \in 1..nr |-> NodePair(h, rs[a], rs[b], IF a = b THEN 0 ELSE 1)]])
-      nc == Flatten([a \in 1..nr |-> [b \in 1..nr |-> TreePair(h, rs[a], Term(h, rs[b]), n + rs[b], 2)]])
+\* rs = the heap nodes that are values under test (sorted)
+CaseOf5(h, rs, terms, infos, occs, muts, minfos) ==
+  [fam |-> FAM, pre |-> Prelude(h), lets |-> RLets(h, 1),
+   \* handles: 1..n nodes, n+1..2n unshared copies, 2n+1.. mutants of the copies
+   handles |-> [i \in 1..Len(h) |-> "n" \o ToString(i)]
+               \o [i \in 1..Len(h) |-> RTerm(terms[i])]
+               \o [q \in 1..Len(muts) |-> RTerm(muts[q].t)],
+   pairs |->
+      Flatten([a \in 1..Len(rs) |-> [b \in 1..Len(rs) |->
+                 NodePair(h, rs[a], rs[b], IF a = b THEN 0 ELSE 1, terms, infos, occs)]])
+      \o Flatten([a \in 1..Len(rs) |-> [b \in 1..Len(rs) |->
+                 TreePair(h, rs[a], infos[rs[b]], Len(h) + rs[b], 2, infos, occs)]])
       \* a node against its own mutants
-      nmu == [q \in 1..nm |-> TreePair(h, muts[q].of, muts[q].t, 2 * n + q, 1)]
-  IN [fam |-> FAM, pre |-> Prelude(h), lets |-> RLets(h, 1), handles |-> handles,
-      pairs |-> nn \o nc \o nmu]
-
+      \o [q \in 1..Len(muts) |-> TreePair(h, muts[q].of, minfos[q], 2 * Len(h) + q, 1, infos, occs)]]
+CaseOf4(h, rs, terms, infos, occs, muts) ==
+  CaseOf5(h, rs, terms, infos, occs, muts, Force([q \in 1..Len(muts) |-> TInfo(muts[q].t)]))
+CaseOf3(h, rs, terms) ==
+  CaseOf4(h, rs, terms, Force([i \in 1..Len(h) |-> TInfo(terms[i])]),
+          Force([i \in 1..Len(h) |-> OccSeq(h, i)]), AllMutants(rs, terms))
+CaseOf(h, roots) == CaseOf3(h, SetToSortSeq(roots, <), Force([i \in 1..Len(h) |-> Term(h, i)]))
 -----------------------------------------------------------------------------
 (* Leaf family: heaps  <<x, y>>  or  <<x, y, W(x), W(y)>>  *)
 Wrap(k, j) == CASE k = "cons"  -> [k |-> k, c |-> <<RefSlot(j), LeafSlot("i1")>>]
